@@ -137,7 +137,8 @@ def run(R):
         R.must_call("C03.pay.retain", PAY, ["alloc::vec::Vec::retain"], "payees.retain(not in closest)")
         # (5) quoted address
         R.forall_compare("C03.pay.quoted-address", pay, field_read_seeds("content"), P(1), ok_ret,
-                         "this node's quote.content equals the stored address")
+                         "this node's quote.content equals the stored address",
+                         source_calls=["ant_evm::data_payments::ProofOfPayment::quotes_by_peer"])
         R.must_call("C03.pay.own-quotes", PAY, ["ant_evm::data_payments::ProofOfPayment::quotes_by_peer"], "the compared quotes are this node's (quotes_by_peer)")
 
     # (3b) the on-chain check itself (evmlib): Ok only if the contract reports every submitted quote as valid, over the full proof
